@@ -174,6 +174,40 @@ TIERS = {
 }
 
 
+def predict_probes(state, nkey, maxsize):
+    """What spec/LruConc.tla says happens from `state` when the calls in flight are completed in the
+    harness' drain order and every key is then called once, sequentially (C10 from the contents)."""
+    order = list(state["o"])
+    pc, key, rem = list(state["pc"]), list(state["k"]), list(state["r"])
+    caching = maxsize != 0
+
+    def store(k):
+        if not caching or k in order:
+            return
+        if maxsize > 0 and len(order) >= maxsize:
+            order.pop(0)
+        order.append(k)
+
+    while any(p == "infn" for p in pc):
+        for t in range(len(pc)):
+            if pc[t] == "infn":
+                rem[t] -= 1
+                if rem[t] <= 0:
+                    pc[t] = "idle"
+                    store(key[t])
+    out = []
+    for k in range(1, nkey + 1):
+        if caching and k in order:
+            out.append(False)
+            if maxsize > 0:
+                order.remove(k)
+                order.append(k)
+        else:
+            out.append(True)
+            store(k)
+    return out
+
+
 def replay_path(args):
     (ntask, nkey, maxsize, _callsper, fnsusp), path = args
     L = tm.load_lib()
@@ -193,7 +227,13 @@ def replay_path(args):
             drift = {"step": j, "label": e["a"], "fields": bad, "expected": {x: exp[x] for x in bad}, "observed": {x: got[x] for x in bad}}
             break
     s.drain()
-    return {"cfg": s.cfg(), "ev": s.trace, "drift": drift, "path": [e["a"] for e in path], "acct_ok": s.acct.ok()}
+    probes = None
+    if drift is None and path:
+        want = predict_probes(path[-1]["t"], nkey, maxsize)
+        got = [e["inv"] for e in s.trace if e["e"] == "probe"]
+        if got != want:
+            probes = {"expected_invocations": want, "observed": got, "model_order": path[-1]["t"]["o"]}
+    return {"cfg": s.cfg(), "ev": s.trace, "drift": drift, "path": [e["a"] for e in path], "acct_ok": s.acct.ok(), "probes": probes}
 
 
 def random_run(args):
@@ -271,6 +311,10 @@ def check(prop, tier, seed, into=None):
         alltraces += drifted + sample
         for b in bad:
             v.violation("C11/lru_cache/foreign-suspension", {"engine": "lruconc", **b})
+        for r in sample:
+            if r.get("probes"):
+                v.violation("C11/lru_cache/contents-after-quiescence-differ",
+                            {"engine": "lruconc", "spec": "LruConc", "cfg": r["cfg"], "path": r["path"], **r["probes"]})
     nrand = 300 if tier == "mini" else 1500 if tier == "quick" else 20000
     jobs = [(seed * 104729 + i, rnd.choice([2, 3, 4, 5]), rnd.choice([1, 2, 3, 4]), rnd.choice([-1, 0, 1, 2, 3]), rnd.choice([1, 2, 3]))
             for i in range(nrand)]
